@@ -118,6 +118,12 @@ and expr0 p ind e =
   | EFor (i, c, s, body) ->
     str p "for ("; expr p ind i; str p "; "; expr p ind c; str p "; "; expr p ind s; str p ")"; nl p;
     braced p ind body
+  | EForInRange (x, a, b, body) ->
+    str p ("for (" ^ vname p x ^ " in ["); sub p ind a; str p " .. "; sub p ind b; str p "])"; nl p;
+    braced p ind body
+  | EForInArr (x, a, body) ->
+    str p ("for (" ^ vname p x ^ " in "); (match a with EArrLit _ -> expr p ind a | _ -> sub p ind a); str p ")"; nl p;
+    braced p ind body
   | ELambda fd -> lambda p ind fd
   | EArrLit (es, t) -> str p "["; commas p ind es; str p "] : "; str p (ty_str p t)
   | EIndex (a, i) -> sub p ind a; str p "["; expr p ind i; str p "]"
